@@ -81,34 +81,24 @@ def build(chk):
                 chk.add(f"{fname}/{tag}/post/returns-on-admissible-input", [], z3.BoolVal(False), func=fq, meta={"replay": rep})
                 continue
             oa, ob = above[0], below[0]
-            V, n_out, untouched, thr = oa.value
-            hyps = list(oa.pc)
-            chk.canary(f"{fname}/{tag}", hyps)
-            chk.add(f"{fname}/{tag}/post/shape", hyps, T.compare("eq", n_out, 2), func=fq, meta={"replay": rep})
-            chk.add(f"{fname}/{tag}/frame/input-not-written", hyps, z3.BoolVal(bool(untouched)), kind="frame", func=fq, meta={"replay": rep})
-            V = T.resolve_ites(T.zr(V), hyps)
-            dep = any(u.eq(r_other) for u in T.subterms(V).values())
-            chk.add(f"{fname}/{tag}/post/elementwise", hyps, z3.BoolVal(not dep), func=fq, meta={"replay": rep})
-            rho = documented_density(kind, normalized, r)
-            rV = r * V
-            lhs = C.Dn(rV, r, 2)
-            rhs = T.mul(T.mul(-4, T.PI), T.mul(r, rho))
-            if not C.crosscheck_D(rV, r, C.D(rV, r)):
-                chk.engine_errors.append(f"D operator disagrees with sympy.diff on r*{fname}")
-            chk.add_identity(f"{fname}/{tag}/post/poisson", lhs, rhs, hyps, func=fq, meta={"replay": dict(rep, what="poisson")})
-            # signature of the recorded defect of the p-type formula: residual = 4 G alpha^{3/2} r (2 alpha r^2 - 3)/sqrt(pi) [x prefactor]
-            if kind == "p":
-                g = T.apply_uf("exp", T.neg(T.mul(alpha, T.mul(r, r))))
-                resid = T.truediv(T.mul(T.mul(T.mul(4, g), T.mul(T.power(alpha, Fraction(3, 2)), r)), T.sub(T.mul(2, T.mul(alpha, T.mul(r, r))), 3)),
-                                  T.apply_uf("sqrt", T.PI))
-                if not normalized:
-                    resid = T.mul(resid, total_charge("p", False))
-                ob_sig = chk.add_identity(f"{fname}/{tag}/post/poisson#signature", T.sub(lhs, rhs), resid, hyps, func=None, side=False)
-                if ob_sig is not None:
-                    ob_sig.meta["signature_for"] = f"C17/{fname}/{tag}/post/poisson"
-                    ob_sig.kind = "signature"
-            # total charge: r V with erf := 1 and the Gaussian := 0
-            add_limit_obligations(chk, fname, tag, kind, normalized, V, hyps, ob, fq, rep)
+            V0, n_out, untouched, thr = oa.value
+            base_hyps = list(oa.pc)
+            chk.canary(f"{fname}/{tag}", base_hyps)
+            chk.add(f"{fname}/{tag}/post/shape", base_hyps, T.compare("eq", n_out, 2), func=fq, meta={"replay": rep})
+            chk.add(f"{fname}/{tag}/frame/input-not-written", base_hyps, z3.BoolVal(bool(untouched)), kind="frame", func=fq, meta={"replay": rep})
+            try:
+                cases = T.split_ites(T.zr(V0), base_hyps)
+            except T.Unsupported as e:
+                chk.undecided.append((f"C17/{fname}/{tag}", str(e)))
+                continue
+            for ci, (extra, V) in enumerate(cases):
+                # on the unchanged code the masks are decided by r >= threshold: exactly one case (no suffix)
+                sfx = "" if len(cases) == 1 else f"@case{ci}"
+                hyps = base_hyps + extra
+                try:
+                    function_case(chk, kind, fname, tag, normalized, V, hyps, ob, fq, rep, sfx)
+                except T.Unsupported as e:
+                    chk.undecided.append((f"C17/{fname}/{tag}{sfx}", str(e)))
         # argument validation: alpha <= 0 and negative radii raise
         f = eng.get_function(MOD, fname)
 
@@ -128,6 +118,30 @@ def build(chk):
         chk.add(f"{fname}/raises/negative-radius", [], z3.BoolVal(bool(outs) and all(o.kind == "raise" and o.exc == "ValueError" for o in outs)),
                 func=fq, meta={"replay": {"fn": fname, "what": "validation"}})
     superposition(chk)
+
+
+def function_case(chk, kind, fname, tag, normalized, V, hyps, ob, fq, rep, sfx):
+    dep = any(u.eq(r_other) for u in T.subterms(V).values())
+    chk.add(f"{fname}/{tag}/post/elementwise{sfx}", hyps, z3.BoolVal(not dep), func=fq, meta={"replay": rep})
+    rho = documented_density(kind, normalized, r)
+    rV = r * V
+    lhs = C.Dn(rV, r, 2)
+    rhs = T.mul(T.mul(-4, T.PI), T.mul(r, rho))
+    if not C.crosscheck_D(rV, r, C.D(rV, r)):
+        chk.engine_errors.append(f"D operator disagrees with sympy.diff on r*{fname}")
+    chk.add_identity(f"{fname}/{tag}/post/poisson{sfx}", lhs, rhs, hyps, func=fq, meta={"replay": dict(rep, what="poisson")})
+    # signature of the recorded defect of the p-type formula: residual = 4 G alpha^{3/2} r (2 alpha r^2 - 3)/sqrt(pi) [x prefactor]
+    if kind == "p":
+        g = T.apply_uf("exp", T.neg(T.mul(alpha, T.mul(r, r))))
+        resid = T.truediv(T.mul(T.mul(T.mul(4, g), T.mul(T.power(alpha, Fraction(3, 2)), r)), T.sub(T.mul(2, T.mul(alpha, T.mul(r, r))), 3)),
+                          T.apply_uf("sqrt", T.PI))
+        if not normalized:
+            resid = T.mul(resid, total_charge("p", False))
+        ob_sig = chk.add_identity(f"{fname}/{tag}/post/poisson{sfx}#signature", T.sub(lhs, rhs), resid, hyps, func=None, side=False)
+        if ob_sig is not None:
+            ob_sig.meta["signature_for"] = f"C17/{fname}/{tag}/post/poisson{sfx}"
+            ob_sig.kind = "signature"
+    add_limit_obligations(chk, fname, tag + sfx, kind, normalized, V, hyps, ob, fq, rep)
 
 
 def add_limit_obligations(chk, fname, tag, kind, normalized, V, hyps, below_outcome, fq, rep):
